@@ -70,6 +70,28 @@ try:
         vals = all_content(d).values()
         if b"USER CHANGE\n" not in vals or b"UNKNOWN\n" not in vals:
             verdict(True, "remove without force deleted a changed or an unknown file", input=fmt, observed=str(sorted(all_content(d))))
+    # 5. "written by a previous merge" must mean the merge wrote the text: a merge-like update that only RENAMES (or moves) a file
+    #    carrying uncommitted edits must not make a later revert treat the edits as disposable (bzr trees record merge hashes)
+    for how in ("rename", "move"):
+        ud = os.path.join(base, "up_" + how); os.mkdir(ud)
+        cd = controldir.format_registry.make_controldir("2a").initialize(ud); cd.create_repository(); cd.create_branch()
+        up = cd.create_workingtree()
+        os.mkdir(os.path.join(ud, "sub"))
+        open(os.path.join(ud, "f"), "w").write("one\ntwo\nthree\n"); up.add(["sub", "f"]); up.commit("1", committer="t <t@e.x>")
+        ld = os.path.join(base, "local_" + how)
+        local = up.controldir.sprout(ld).open_workingtree()
+        new = "g" if how == "rename" else "sub/f"
+        up.rename_one("f", new); up.commit("2: only a rename", committer="t <t@e.x>")
+        open(os.path.join(ld, "f"), "w").write("one\nUSER EDIT NEVER COMMITTED\nthree\n")
+        local.pull(up.branch)
+        local = local.controldir.open_workingtree()
+        claimed = dict(local.merge_modified())
+        local.revert(backups=True)
+        tried += 1
+        if b"one\nUSER EDIT NEVER COMMITTED\nthree\n" not in all_content(ld).values():
+            verdict(True, "revert destroyed uncommitted edits without a backup: the preceding update only renamed the file but recorded its text "
+                          "as written by the merge", input=dict(update="pull of a %s f -> %s onto a tree with edits in f" % (how, new)),
+                    observed="merge hashes after the update: %s; files after revert: %s" % (sorted(claimed), sorted(all_content(ld))))
     verdict(False, "no failing scenario among %d" % tried)
 finally:
     shutil.rmtree(base, ignore_errors=True)
